@@ -60,6 +60,8 @@ pub mod choose;
 pub mod local;
 /// Utility functions for the backend.
 pub mod util;
+#[cfg(feature = "verif-hooks")]
+pub mod verif;
 
 /// `OpenDAL` backend for Rustic.
 #[cfg(feature = "opendal")]
